@@ -42,6 +42,10 @@ def make_fun(d, counter):
         v = base(x)
         if d.get("ret") == "array":
             return np.array([v])
+        if d.get("ret") == "array0d":
+            return np.array(v)
+        if d.get("ret") == "npfloat":
+            return np.float64(v)
         return v
     return fun
 
@@ -90,7 +94,11 @@ def build(desc):
     for cd in desc.get("constraints", []):
         lim = lambda v: INF if v == "inf" else -INF if v == "-inf" else NAN if v == "nan" else v
         if cd["type"] == "linear":
-            cons.append(LinearConstraint(np.array(cd["A"], float), [lim(v) for v in cd["lb"]], [lim(v) for v in cd["ub"]]))
+            A = np.array(cd["A"], float)
+            if cd.get("flat") and A.shape[0] == 1:
+                cons.append(LinearConstraint(A[0], lim(cd["lb"][0]), lim(cd["ub"][0])))      # one row given as a vector, scalar limits
+            else:
+                cons.append(LinearConstraint(A, [lim(v) for v in cd["lb"]], [lim(v) for v in cd["ub"]]))
         elif cd["type"] == "nonlinear":
             f = make_con(cd["fun"], [0])
             lb = [lim(v) for v in cd["lb"]]
@@ -106,7 +114,7 @@ def build(desc):
     for k in ("target",):
         if opts.get(k) == "-inf":
             opts[k] = -INF
-    return {"fun": fun, "x0": list(desc["x0"]), "bounds": bounds, "constraints": cons,
+    return {"fun": fun, "x0": list(desc["x0"]), "bounds": bounds, "constraints": cons, "api": desc.get("api"),
             "callback_kind": desc.get("callback_kind"), "stop_at": desc.get("stop_at"),
             "overwrite": desc.get("overwrite", False), "options": opts, "constants": desc.get("constants") or {},
             "args": tuple(desc.get("args", ()))}
@@ -136,8 +144,8 @@ def gen(rng, focus="general"):
             else:
                 bad["t"] = r(rng.uniform(-1, 2))
             desc["fun"]["bad"] = bad
-        if rng.random() < 0.1:
-            desc["fun"]["ret"] = "array"
+        if rng.random() < 0.15:
+            desc["fun"]["ret"] = ["array", "array0d", "npfloat"][int(rng.integers(3))]
     # bounds
     u = rng.random()
     if u < 0.55:
@@ -186,6 +194,8 @@ def gen(rng, focus="general"):
                 else:
                     a = r(rng.uniform(-1, 1)); lb.append(a); ub.append(a)
             cons.append({"type": "linear", "A": A, "lb": lb, "ub": ub})
+            if m == 1 and rng.random() < 0.3:
+                cons[-1]["flat"] = True
         else:
             kind = ["ball", "parab", "plane", "vec", "sin"][int(rng.integers(5))]
             fd = {"kind": kind, "c": [r(v) for v in rng.uniform(-1, 1, n)], "r": r(rng.uniform(0.5, 3)),
@@ -210,6 +220,10 @@ def gen(rng, focus="general"):
                     lb, ub = lb[:1], ub[:1]      # scalar-broadcast limits
                 cons.append({"type": "nonlinear", "fun": fd, "lb": lb, "ub": ub})
     desc["constraints"] = cons
+    # the forms in which the same arguments are handed over
+    if rng.random() < 0.5:
+        desc["api"] = {"x0": ["list", "tuple", "array", "column"][int(rng.integers(4))],
+                       "cons": ["list", "tuple", "single"][int(rng.integers(3))], "maxfev_float": bool(rng.random() < 0.3)}
     # options
     o = {}
     nfree = n
